@@ -168,6 +168,12 @@ def gen_model_raw(rng, *, max_periods=3, allow_stochastic=True, allow_filter=Tru
     if "two_stochastic" in force and ns < 2:
         ns = 2
         snames = rng.sample(STATE_NAMES, ns)
+    if "two_stochastic" in force:
+        # names of which one is a suffix of the other (and whose next_ names sort the other way round): lookups of a
+        # variable's own PRNG key, weights or grid by name must not confuse them
+        rest = [n for n in snames[2:] if n not in ("health", "bad_health")]
+        snames = ["health", "bad_health"] + rest
+        ns = len(snames)
     eq_size = rng.choice([2, 3])
     for i, n in enumerate(snames):
         cont = rng.random() < 0.45
@@ -268,7 +274,7 @@ def gen_model_raw(rng, *, max_periods=3, allow_stochastic=True, allow_filter=Tru
         aux.append(name)
 
     # ---- constraints ---------------------------------------------------------------------
-    ncons = rng.choice([0, 1, 1, 2]) if not ({"constraint", "int_utility"} & force) else rng.choice([1, 2])
+    ncons = rng.choice([0, 1, 1, 2]) if not ({"constraint", "int_utility", "dead_state"} & force) else rng.choice([1, 2])
     for k in range(ncons):
         pars = pick_pars()
         cvars = [n for n, g in choices]
@@ -277,7 +283,7 @@ def gen_model_raw(rng, *, max_periods=3, allow_stochastic=True, allow_filter=Tru
             pool.append(rng.choice(aux))
         if rng.random() < 0.15:
             pool.append("_period")
-        if "int_utility" in force and k == 0:
+        if ({"int_utility", "dead_state"} & force) and k == 0 and dchoices and dstates:
             # some states have no admissible choice at all: choice <= state - 1
             body = ["<=", X.v(dchoices[0]), ["+", X.v(dstates[0]), X.c(-1)]]
         elif rng.random() < 0.5 and len(pool) >= 2:
